@@ -1427,6 +1427,20 @@ func (ls *lockScanner) scanDeferredOrGo(c *fnCtx, call *ast.CallExpr, isDefer bo
 	if !isDefer {
 		c.noPrepub++
 	}
+	// defer v.f.Add(-1) / go v.f.Store(x) with f of a sync/atomic type: the same atomic access as the plain call
+	if se, ok := call.Fun.(*ast.SelectorExpr); ok {
+		if v, f, ok := ls.trackedField(c, se.X); ok && ls.fields[f].kind == fkAtomic {
+			ls.emit(c, call, v, f, atomicWriteMethods[se.Sel.Name], true)
+			if se.Sel.Name != "Load" && !atomicWriteMethods[se.Sel.Name] {
+				ls.emitUnknown(c, call, f, "method "+se.Sel.Name+" of an atomic value")
+			}
+			c.held = saved
+			if !isDefer {
+				c.noPrepub--
+			}
+			return
+		}
+	}
 	switch f := call.Fun.(type) {
 	case *ast.FuncLit:
 		c.closures++
